@@ -1911,6 +1911,19 @@ class EqWorld(BaseWorld):
                                              r['resid'], r['unit'], r['msg']))
             return
         bad = [r for r in recs if not r['resid'] <= MULT[r['clause']] * r['unit']]
+        if bad and 'T' in ev['spec'] and 'P' not in ev['spec'] and abs(ta.P - after.P) <= 2. * VLE_P_TOL:
+            # the pressure is an OUTPUT of this call, found to within P_tol; two runs may legitimately sit P_tol
+            # apart on either side, and the split follows the pressure.  The sensitivity is measured here (two
+            # brand-new T-P flashes of the same material around the returned pressure), not assumed
+            extra = self.flow_sensitivity_to_P(name, before, after) * 2. * VLE_P_TOL
+            still = []
+            for r in bad:
+                if r['clause'].startswith('scaling') and not r['clause'].endswith(('-T', '-P')) \
+                        and r['resid'] <= MULT[r['clause']] * r['unit'] + extra:
+                    self.stats['scaling:within_pressure_resolution'] += 1
+                else:
+                    still.append(r)
+            bad = still
         if not bad:
             return
         detail = {'k': k, 'before': before.to_json(), 'after': after.to_json(),
@@ -1941,6 +1954,25 @@ class EqWorld(BaseWorld):
             else:
                 self.fail(r['clause'], msg + (f" [a fresh pair of streams given the same inputs agrees: "
                                               f"{b['resid']:.6g}]" if b else ' [fresh pair: no result]'), d)
+
+    def flow_sensitivity_to_P(self, name, before, after):
+        """max |d(flow per unit feed)| / dP around the returned state, from two fresh T-P flashes"""
+        F = float(after.totals().sum())
+        if not F > 0:
+            return 0.
+        dP = max(5., 1e-4 * after.P)
+        rows = []
+        for P in (after.P - dP, after.P + dP):
+            try:
+                f = self.fresh_from(name, before)
+                f.vle(T=after.T, P=P)
+                sn = take_snap(f)
+                if sn.phases != after.phases:
+                    return 0.
+                rows.append(sn.rows)
+            except Exception:
+                return 0.
+        return float(np.max(np.abs(rows[1] - rows[0]))) / (2. * dP * F)
 
     def resync_twin(self, name):
         """Make the twin's observable state exactly k x the main stream again (its solver objects,
